@@ -225,6 +225,7 @@ def conclude(prop, tier, seed, results, t0, a):
         samples.append({"violation": v})
     evidence = {
         "property_id": prop, "tier": tier, "seed": seed, "level": level,
+        "source": dict(source_state(), partial=bool(a.only)),
         "wall_s": round(wall, 2), "violations": len(violations),
         "coverage": {
             "obligations": n_ob, "discharged": n_dis + len(known_reported) * 0,
@@ -291,24 +292,40 @@ BOUNDED = {
             ("digest_keys_independent", {"first": {"checksum_algorithm": "blake2s", "checksum": "00"}})],
     "C03": [("model_sweep", SW)],
     "C04": [("model_sweep", SW)],
-    "C05": [("model_sweep", SW), ("delete_total", {"state": "object-missing"})],
+    "C05": [("model_sweep", SW), ("delete_total", {"state": "object-missing"}), ("refs_helper_pool", {})],
     "C06": [("verdict_matrix", {})],
-    "C08": [("race_same_pid_store", {}), ("race_delete_all_metadata", {})],
+    "C07": [("race_wakeup", {"class": "cid"}), ("race_wakeup", {"class": "pid"})],
+    "C08": [("race_same_pid_store", {}), ("race_delete_all_metadata", {})]
+    + [("fault_call", {"scenario": sc, "prim": pr, "target": tg, "persistent": False})
+       for sc, pr, tg in (("delete_object: sole reference", "move", "pidref-marked"),
+                          ("delete_object: sole reference", "remove", "pidref-marked"),
+                          ("delete_object: shared object", "move", "pidref-marked"),
+                          ("store_metadata: overwrite", "move", "meta"),
+                          ("delete_metadata: all documents", "move", "meta-marked"))],
     "C09": [("observe_steps", {})],
-    "C10": [("crash_recover", {})],
+    "C10": [("crash_recover", {}), ("refs_helper_pool", {})],
     "C11": [("model_sweep", {"length": 3, "metadata": True, "focus": ["smeta", "dmeta"],
                              "pids": ["pid-a", "pid-b"]}),
             ("model_sweep", {"length": 4, "metadata": True, "contents": 1, "no_tag": True,
                              "require_all": ["smeta", "delete"], "pids": ["pid-a", "pid-b"]})],
     "C12": [("race_delete_all_metadata", {}), ("race_store_meta_delete_all", {}),
-            ("metadata_exclusion", {})],
+            ("metadata_exclusion", {}), ("race_meta_pause", {})],
+    "C13": [("fault_call", {"scenario": sc, "prim": pr, "target": tg, "persistent": per})
+            for per in (False, True)
+            for sc, pr, tg in (("store_metadata: overwrite", "move", "meta"),
+                               ("store_metadata: new document", "move", "meta"),
+                               ("tag_object: additional pid of the cid", "move", "pidref"),
+                               ("tag_object: first pid of the cid", "move", "cidref"),
+                               ("store_object: duplicate content, additional pid", "move", "pidref"),
+                               ("delete_object: sole reference", "remove", "obj-marked"))],
     "C14": [("config_matrix", {})],
     "C15": [("model_sweep", {"length": 3, "focus": ["store", "tag"], "metadata": True,
                              "pids": ["pid-a", "dir/pid b".replace(" ", "_")]})],
-    "C16": [("mp_mode", {})],
+    "C16": [("mp_mode", {}), ("mp_fork_wait", {}), ("race_wakeup", {"class": "cid", "mp": True})],
     "C17": [("reject_matrix", {})],
     "C18": [("model_sweep", {"length": 3, "focus": ["delete", "tag"],
-                             "pids": ["../../etc/passwd", "passwd", "../../etc/PASSWD"]})],
+                             "pids": ["../../etc/passwd", "passwd", "../../etc/PASSWD"]}),
+            ("identifier_pool", {})],
     "C19": [("verdict_matrix", {})],
     "C20": [("client_matrix", {})],
 }
@@ -331,6 +348,25 @@ def load_baseline():
         with open(p) as fh:
             return json.load(fh)
     return {}
+
+
+def source_state():
+    """Which sources this run verified: the working tree of /repo (with its HEAD and whether it has
+    uncommitted changes) or an experiment directory.  tools/gen_baseline.py only accepts evidence
+    of a clean /repo."""
+    import subprocess
+    src = os.environ.get("HASHSTORE_SRC")
+
+    def git(*a):
+        try:
+            return subprocess.run(["git", "-C", "/repo"] + list(a), capture_output=True,
+                                  text=True, timeout=30).stdout.strip()
+        except Exception:      # noqa: BLE001 - evidence only
+            return "?"
+    return {"dir": src or "/repo/src/hashstore", "experiment": bool(src),
+            "repo_head": git("rev-parse", "--short", "HEAD"),
+            "repo_dirty": bool(git("status", "--porcelain", "--", "src")),
+            "partial": False}
 
 
 ASSUMPTIONS = [
